@@ -169,7 +169,13 @@ int mc_explore(const MCKind *k)
     node_add(0, 0, 0, k1, k2);
 
     for (qi = 0; qi < nnodes; ++qi) {
-        int d = path_of(qi, hist);
+        int d;
+        /* A broken implementation can make the reachable set explode (e.g. state that keeps
+         * accumulating).  The counterexamples found so far are the shortest ones (BFS order);
+         * stop expanding once plenty have been recorded, or at the state cap. */
+        if (g_cnt.violations >= 400) { truncated = 1; note_kv("stopped_early", "exploration of %s stopped after %llu violations", k->name, (unsigned long long)g_cnt.violations); break; }
+        if (nnodes > 3000000) { truncated = 1; note_kv("state_cap", "exploration of %s stopped at the 3,000,000 state cap", k->name); break; }
+        d = path_of(qi, hist);
         int use_snap = k->world != NULL;
         int audit = use_snap && (qi % 8 == 3);
         static uint8_t *wsnap; static size_t wsnap_cap;
@@ -277,6 +283,26 @@ void mc_replay(const MCKind *const *kinds, int nkinds, const char *desc)
     }
 }
 
+/* Generic crash attribution for non-BFS harnesses: bracket one case. */
+int guard_enter(const char *sigbase, const char *casedesc)
+{
+    Shared *s = S();
+    int i;
+    for (i = 0; i < s->ncrash; ++i) if (!strcmp(s->crash[i].desc, casedesc)) return 1;
+    if (sh) {
+        snprintf(s->sigbase, sizeof(s->sigbase), "%s", sigbase);
+        snprintf(s->text, sizeof(s->text), "%s", casedesc);
+        s->inside = 2;
+    }
+    return 0;
+}
+
+void guard_leave(void)
+{
+    S()->inside = 0;
+    ++S()->progress;
+}
+
 static const char *signame(int s)
 {
     switch (s) {
@@ -323,7 +349,15 @@ int mc_guarded_main(void (*body)(void))
             printf("ENGINE-ERROR: more than %d crashing transitions; giving up\n", MAX_CRASH);
             return EXIT_ENGINE;
         }
-        {
+        if (sh->inside == 2) {
+            int n = sh->ncrash;
+            const char *sn = signame(WTERMSIG(status));
+            snprintf(sh->crash[n].desc, sizeof(sh->crash[n].desc), "%s", sh->text);
+            snprintf(sh->crash[n].sig, sizeof(sh->crash[n].sig), "%s/crash/%s", sh->sigbase, sn);
+            snprintf(sh->crash[n].text, sizeof(sh->crash[n].text), "%s in the library during case '%s'", sn, sh->text);
+            sh->ncrash = n + 1;
+            sh->inside = 0;
+        } else {
             int n = sh->ncrash, j; size_t o;
             const char *sn = signame(WTERMSIG(status));
             o = (size_t)snprintf(sh->crash[n].desc, sizeof(sh->crash[n].desc), "%s:", sh->kind);
